@@ -360,6 +360,141 @@ pub fn all_bytes_stage(rep: &mut Report, env: &AppEnv, stage: &str, bases: &[Vec
     });
 }
 
+/// Busy responder: the first segment of each conversation, then `nfill` OTHER connections (each
+/// one valid first data segment: junk / a complete HTTP request / a partial one / an SSH banner)
+/// through the same process, then the rest of each conversation with the acknowledgement number
+/// advanced past the replies received so far, as a real client does.  Every reply must equal the
+/// one the same conversation gets from an idle process (table caps, pruning, wear-out).
+pub fn busy_stage(rep: &mut Report, cfg: &Cfg, prop: &'static str, stage: &str, convs: &[(String, Vec<Vec<u8>>)], nfill: usize) {
+    let t0 = std::time::Instant::now();
+    let flows: Vec<Flow> = (0..convs.len()).map(|j| flow(j % 2 == 1, 41000 + j as u16, 80)).collect();
+    let ck = match learn_cookies(cfg, &flows) {
+        Ok(c) if c.len() == flows.len() => c,
+        _ => {
+            rep.extra.insert(format!("{}_skipped", stage), serde_json::json!("cookies of the conversation flows could not be learned"));
+            return;
+        }
+    };
+    // idle-process runs: expected canonical replies and reply lengths
+    let canon = |r: Option<&[u8]>| crate::props::c19::canon_for("", r, true);
+    let mut want: Vec<Vec<String>> = Vec::new();
+    let mut acks: Vec<Vec<u32>> = Vec::new();
+    {
+        let mut d = match crate::driver::Driver::spawn(cfg) {
+            Ok(d) => d,
+            Err(e) => {
+                rep.sink.machinery_errors.push(e);
+                return;
+            }
+        };
+        for (j, (_, segs)) in convs.iter().enumerate() {
+            let f = &flows[j];
+            let c = ck[&key_of(f)].wrapping_add(1);
+            let mut cmds = vec![Cmd::Reset];
+            let mut off = 0u32;
+            for sg in segs {
+                cmds.push(Cmd::Frame(f.tcp(1000u32.wrapping_add(off), c, F_PSH | F_ACK, sg)));
+                off = off.wrapping_add(sg.len() as u32);
+            }
+            let outs = d.exec(&cmds).unwrap_or_default();
+            let mut w = Vec::new();
+            let mut a = vec![c];
+            let mut got = 0u32;
+            for o in outs.iter().skip(1) {
+                w.push(canon(o.reply.as_deref()));
+                got = got.wrapping_add(o.reply.as_deref().and_then(crate::mask::app_payload).map(|(_, p)| p.len() as u32).unwrap_or(0));
+                a.push(c.wrapping_add(got));
+            }
+            want.push(w);
+            acks.push(a);
+        }
+    }
+    let fill = crate::props::c07::many_flow_set(cfg, nfill, 8000, rep);
+    if fill.len() < nfill / 2 {
+        rep.extra.insert(format!("{}_skipped", stage), serde_json::json!(format!("only {} of {} filler cookies could be learned", fill.len(), nfill)));
+        return;
+    }
+    let mut cmds: Vec<Cmd> = Vec::new();
+    let mut pos: Vec<Vec<usize>> = vec![Vec::new(); convs.len()];
+    for (j, (_, segs)) in convs.iter().enumerate() {
+        pos[j].push(cmds.len());
+        cmds.push(Cmd::Frame(flows[j].tcp(1000, acks[j][0], F_PSH | F_ACK, &segs[0])));
+    }
+    for (k, (f, g)) in fill.iter().enumerate() {
+        let pl: &[u8] = match k % 4 {
+            0 => b"x",
+            1 => b"GET /busy HTTP/1.1\r\nHost: x\r\n\r\n",
+            2 => b"GET ",
+            _ => b"SSH-2.0-busy\r\n",
+        };
+        cmds.push(Cmd::Frame(f.tcp(1, g.wrapping_add(1), F_PSH | F_ACK, pl)));
+    }
+    for (j, (_, segs)) in convs.iter().enumerate() {
+        let mut off = segs[0].len() as u32;
+        for (k, sg) in segs.iter().enumerate().skip(1) {
+            pos[j].push(cmds.len());
+            cmds.push(Cmd::Frame(flows[j].tcp(1000u32.wrapping_add(off), acks[j][k], F_PSH | F_ACK, sg)));
+            off = off.wrapping_add(sg.len() as u32);
+        }
+    }
+    let total = cmds.len() as u64;
+    let opts = RunOpts::new(stage).stateful().chunk(1).no_monitor();
+    let cfgc = cfg.clone();
+    engine::run(
+        cfg,
+        1,
+        &opts,
+        |_| cmds.clone(),
+        |it: &Item, sk: &mut Sink| {
+            sk.count("frames", total);
+            for (j, (name, _)) in convs.iter().enumerate() {
+                for (k, p) in pos[j].iter().enumerate() {
+                    let got = canon(it.outs[1 + p].reply.as_deref());
+                    if got != want[j][k] {
+                        sk.violation(crate::engine::Violation {
+                            prop: prop.into(),
+                            key: format!("busy-responder:{}", name),
+                            what: format!("conversation '{}', segment {}: with {} other connections between its first and its later segments the reply is {} instead of {} (idle process)", name, k + 1, fill.len(), &got[..got.len().min(80)], &want[j][k][..want[j][k].len().min(80)]),
+                            cfg: cfgc.clone(),
+                            cmds: it.cmds[..=1 + p].to_vec(),
+                            idx: j as u64,
+                            stage: stage.to_string(),
+                        });
+                        break;
+                    }
+                }
+            }
+        },
+        &mut rep.sink,
+    );
+    rep.stage(stage, &format!("{} conversations: first segment, then {} other connections (junk / complete HTTP / partial HTTP / SSH banner) through the same process, then the remaining segments with acknowledgement numbers advanced past the replies: every reply equals the idle-process reply", convs.len(), fill.len()), total, t0);
+}
+
+/// The conversations of the busy-responder stages (name, segments).
+pub fn busy_convs() -> Vec<(String, Vec<Vec<u8>>)> {
+    let http = b"GET /b HTTP/1.1\r\nHost: x\r\n\r\n".to_vec();
+    let rpc = apprpc::with_record_mark(&apprpc::build_call(0x61626364, 2, 100000, 2, 3, &[], &[0, 0, 0, 0x6f, 0, 0, 0, 2, 0, 0, 0, 6, 0, 0, 0, 0]));
+    let dump = apprpc::with_record_mark(&apprpc::build_call(0x61626365, 2, 100000, 4, 4, &[], &[]));
+    let pad = stun_attr(0x8022, &[b'x'; 252]);
+    let stun_big = stun_magic(&[pad.clone(), stun_attr(3, &[0, 0, 0, 2])].concat(), &ID12);
+    let mut v: Vec<(String, Vec<Vec<u8>>)> = vec![
+        ("http-two-segments".into(), vec![http[..9].to_vec(), http[9..].to_vec()]),
+        ("http-cut-in-signature".into(), vec![http[..2].to_vec(), http[2..].to_vec()]),
+        ("http-keep-alive".into(), vec![http.clone(), http.clone()]),
+        ("ssh-cut-in-signature".into(), vec![b"SSH-".to_vec(), b"2.0-x\r\n".to_vec()]),
+        ("ssh-two-banners".into(), vec![b"SSH-2.0-a\r\n".to_vec(), b"SSH-2.0-b\r\n".to_vec()]),
+        ("ghost-two-messages".into(), vec![ghost_request(), ghost_request()]),
+        ("rpc-two-segments".into(), vec![rpc[..20].to_vec(), rpc[20..].to_vec()]),
+        ("rpc-two-calls".into(), vec![rpc.clone(), dump.clone()]),
+        ("smb1-negotiate-session".into(), vec![appsmb::smb1_negotiate(&Smb1Hdr::new(0x72), &["NT LM 0.12"]), appsmb::smb1_session_setup(&Smb1Hdr::new(0x73), &[7; 8])]),
+        ("smb2-negotiate-session".into(), vec![appsmb::smb2_negotiate(&Smb2Hdr::new(0), &[0x0202, 0x0311], &[5; 16]), appsmb::smb2_session_setup(&Smb2Hdr::new(1), &[7; 8])]),
+        ("stun-two-requests".into(), vec![stun_big.clone(), stun_magic(&[], &ID12)]),
+        ("junk-then-junk".into(), vec![b"zz".to_vec(), b"zzzz".to_vec()]),
+    ];
+    v.push(("http-three-segments".into(), vec![http[..4].to_vec(), http[4..20].to_vec(), http[20..].to_vec()]));
+    v
+}
+
 /// Every 16-bit word position (both alignments) of a few requests x a value set: quick = 0..511,
 /// every multiple of 256 and every multiple of 256 plus 255, the 22 edge values, each in both
 /// byte orders; thorough = all 65536 values.  Thresholds on a length / size / count field that
@@ -583,6 +718,10 @@ pub fn run_c13(rep: &mut Report, thorough: bool) {
         // the peer's advertised window (and urgent pointer) do not shape the answer
         window_stage(rep, &env, &format!("http-window-{}", tag), b"GET /w HTTP/1.1\r\nHost: x\r\n\r\n", 1024);
         envelope_stage(rep, &env, &format!("http-envelope-{}", tag), b"GET /e HTTP/1.1\r\nHost: x\r\n\r\n", true, true);
+        if env.cfg.self_ips.is_empty() || thorough {
+            let convs: Vec<(String, Vec<Vec<u8>>)> = busy_convs().into_iter().filter(|c| ["http"].iter().any(|p| c.0.starts_with(p))).collect();
+            busy_stage(rep, &env.cfg, "C13", &format!("http-busy-responder-{}", tag), &convs, 70_000);
+        }
         // keep-alive: a second and third complete request on a connection whose earlier requests
         // were answered
         {
@@ -1108,6 +1247,10 @@ pub fn run_c15(rep: &mut Report, thorough: bool) {
             let msgs = vec![stun_magic(&[], &ID12), stun_magic(&stun_attr(3, &[0, 0, 0, 2]), &ID12), stun_classic(&[], &ID16), stun_magic(&stun_attr(0x8022, b"abcd"), &ID12)];
             long_conv_stage(rep, &env, &format!("stun-long-connection-{}", tag), Some(big.clone()), &msgs, if thorough { 1500 } else { 300 });
             window_stage(rep, &env, &format!("stun-window-{}", tag), &big, 256);
+            if env.cfg.self_ips.is_empty() || thorough {
+            let convs: Vec<(String, Vec<Vec<u8>>)> = busy_convs().into_iter().filter(|c| ["stun"].iter().any(|p| c.0.starts_with(p))).collect();
+            busy_stage(rep, &env.cfg, "C15", &format!("stun-busy-responder-{}", tag), &convs, 70_000);
+        }
             envelope_stage(rep, &env, &format!("stun-envelope-{}", tag), &stun_magic(&[], &ID12), true, true);
             if env.cfg.self_ips.is_empty() || thorough {
                 all_words_stage(rep, &env, &format!("stun-all-words-{}", tag), &[stun_magic(&stun_attr(3, &[0, 0, 0, 2]), &ID12), stun_classic(&stun_attr(3, &[0, 0, 0, 2]), &ID16)], false, thorough);
@@ -1283,6 +1426,10 @@ pub fn run_c16(rep: &mut Report, thorough: bool) {
                 let b = apprpc::build_call_flavors(0x61626364, 100000, v, pr, flavors[d[1] as usize], cred, flavors[d[2] as usize], &verf);
                 (p, if p.tcp { apprpc::with_record_mark(&b) } else { b })
             });
+        }
+        if env.cfg.self_ips.is_empty() || thorough {
+            let convs: Vec<(String, Vec<Vec<u8>>)> = busy_convs().into_iter().filter(|c| ["rpc"].iter().any(|p| c.0.starts_with(p))).collect();
+            busy_stage(rep, &env.cfg, "C16", &format!("rpc-busy-responder-{}", tag), &convs, 70_000);
         }
         window_stage(rep, &env, &format!("rpc-window-getport-{}", tag), &apprpc::with_record_mark(&apprpc::build_call(0x61626364, 2, 100000, 2, 3, &[], &[])), 256);
         window_stage(rep, &env, &format!("rpc-window-dump-{}", tag), &apprpc::with_record_mark(&apprpc::build_call(0x61626364, 2, 100000, 4, 4, &[], &[])), 256);
@@ -1543,6 +1690,10 @@ pub fn run_c17(rep: &mut Report, thorough: bool) {
             long_conv_stage(rep, &env, &format!("smb1-long-connection-{}", tag), None, &[appsmb::smb1_negotiate(&Smb1Hdr::new(0x72), &["NT LM 0.12"]), appsmb::smb1_session_setup(&Smb1Hdr::new(0x73), &[7; 8])], if thorough { 1500 } else { 300 });
             long_conv_stage(rep, &env, &format!("smb2-long-connection-{}", tag), None, &[pls[1].clone(), pls[2].clone(), appsmb::smb2_negotiate(&Smb2Hdr::new(0), &[0x0311, 0x0311, 0x0202], &[6; 16])], if thorough { 1500 } else { 300 });
             window_stage(rep, &env, &format!("smb1-window-{}", tag), &pls[0], 512);
+            if env.cfg.self_ips.is_empty() || thorough {
+            let convs: Vec<(String, Vec<Vec<u8>>)> = busy_convs().into_iter().filter(|c| ["smb"].iter().any(|p| c.0.starts_with(p))).collect();
+            busy_stage(rep, &env.cfg, "C17", &format!("smb-busy-responder-{}", tag), &convs, 70_000);
+        }
             window_stage(rep, &env, &format!("smb2-window-{}", tag), &pls[1], 512);
             envelope_stage(rep, &env, &format!("smb1-envelope-{}", tag), &pls[0], true, true);
             all_bytes_stage(rep, &env, &format!("smb-all-byte-values-{}", tag), &pls, true, false);
@@ -1827,6 +1978,10 @@ pub fn run_c18(rep: &mut Report, thorough: bool) {
             long_conv_stage(rep, &env, &format!("ssh-long-connection-{}", tag), None, &[b"SSH-2.0-a\r\n".to_vec(), b"SSH-1.99-b c\r\n".to_vec()], if thorough { 1500 } else { 300 });
             long_conv_stage(rep, &env, &format!("ghost-long-connection-{}", tag), None, &[ghost_request()], if thorough { 300 } else { 60 });
             window_stage(rep, &env, &format!("ssh-window-{}", tag), b"SSH-2.0-w\r\n", 256);
+            if env.cfg.self_ips.is_empty() || thorough {
+            let convs: Vec<(String, Vec<Vec<u8>>)> = busy_convs().into_iter().filter(|c| ["ssh", "ghost"].iter().any(|p| c.0.starts_with(p))).collect();
+            busy_stage(rep, &env.cfg, "C18", &format!("ssh-ghost-busy-responder-{}", tag), &convs, 70_000);
+        }
             window_stage(rep, &env, &format!("ghost-window-{}", tag), &ghost_request(), 256);
             envelope_stage(rep, &env, &format!("ssh-envelope-{}", tag), b"SSH-2.0-e\r\n", true, true);
             if env.cfg.self_ips.is_empty() || thorough {
